@@ -1,5 +1,98 @@
-"""(stub)"""
+"""Contracts for fakesnow/conn.py and fakesnow/instance.py (C14, C03, C13, C16, C08, C15)."""
+from __future__ import annotations
+
+from pyvc.types import DictT, ListT, NoneType, Opt, TupleT
+from pyvc.world import ClassSchema, Contract
 
 
 def install(w):
-    pass
+    import pathlib
+
+    import duckdb
+
+    import fakesnow.conn
+    import fakesnow.cursor
+    import fakesnow.instance
+    import fakesnow.variables
+
+    Conn = fakesnow.conn.FakeSnowflakeConnection
+    Cur = fakesnow.cursor.FakeSnowflakeCursor
+    FS = fakesnow.instance.FakeSnow
+    Duck = duckdb.DuckDBPyConnection
+    w.schemas[Conn] = ClassSchema(
+        Conn,
+        fields={
+            "_duck_conn": Duck,
+            "_is_closed": bool,
+            "database": Opt(str),
+            "schema": Opt(str),
+            "database_set": bool,
+            "schema_set": bool,
+            "db_path": Opt(pathlib.Path),
+            "nop_regexes": Opt(ListT(str)),
+            "_paramstyle": str,
+            "variables": fakesnow.variables.Variables,
+        },
+    )
+    w.schemas[FS] = ClassSchema(
+        FS,
+        fields={"create_database_on_connect": bool, "create_schema_on_connect": bool, "db_path": None, "nop_regexes": Opt(ListT(str)), "duck_conn": Duck},
+    )
+
+    # ----------------------------------------------------------------------------------------------------------
+    # FakeSnowflakeConnection.__init__  (C14: connect does what its options say; C03: establishes the context)
+    # D / S: the requested names upper-cased (None/'' when not given)
+    # ----------------------------------------------------------------------------------------------------------
+    D = "(database and upper(database))"
+    S = "(schema and upper(schema))"
+    w.add_contract(
+        Contract(
+            "fakesnow.conn.FakeSnowflakeConnection.__init__",
+            params={
+                "self": Conn,
+                "duck_conn": Duck,
+                "database": (Opt(str), None),
+                "schema": (Opt(str), None),
+                "create_database": (bool, True),
+                "create_schema": (bool, True),
+                "db_path": (Opt(str), None),
+                "nop_regexes": (Opt(ListT(str)), None),
+            },
+            requires=[
+                "not duck_closed(duck_conn)",
+                # connect() hands over a cursor nobody has used yet: instance default search path
+                "search_of(duck_conn) == ''",
+                # DuckDB keeps every attached catalog with its information_schema and main schemas
+                "implies(bool(database), implies(cat_exists(upper(database)), schema_exists(upper(database), 'MAIN') and schema_exists(upper(database), 'INFORMATION_SCHEMA')))",
+            ],
+            result=NoneType,
+            modifies=["self._duck_conn", "self._is_closed", "self.database", "self.schema", "self.database_set", "self.schema_set", "self.db_path", "self.nop_regexes", "self._paramstyle", "self.variables",
+                      "$ghost:$cats", "$ghost:$schemas", "$ghost:$files", "$ghost:$boot", "$ghost:$macros", "$ghost:$search", "$ghost:$dlast", "$ghost:$trace_n", "$ghost:$trace", "$ghost:$trace_c", "*._variables"],
+            ensures={
+                # names reported upper-cased either way
+                "C14.names": f"self.database == {D} and self.schema == {S}",
+                # creates exactly what the options allow
+                "C14.creates.database": f"implies(bool(database), cat_exists(upper(database)) == (old(cat_exists(upper(database))) or create_database)) and cats_same_except(upper(database) if database else '')",
+                # (MAIN and INFORMATION_SCHEMA come with every database)
+                "C14.creates.schema": f"implies(bool(database) and bool(schema), schema_exists(upper(database), upper(schema)) == (old(schema_exists(upper(database), upper(schema))) or (cat_exists(upper(database)) and (create_schema or upper(schema) in ('MAIN', 'INFORMATION_SCHEMA')))))",
+                "C14.creates.nothing_else": "schemas_same_except(upper(database) if database else '', upper(schema) if schema else '')",
+                "C14.bootstrap": "implies(bool(database) and create_database and not old(cat_exists(upper(database))), bootstrapped(upper(database)))",
+                "C14.file": "implies(bool(database) and create_database and not old(cat_exists(upper(database))), file_of(upper(database)) == db_file(db_path, upper(database)))",
+                # current database / schema exactly when the objects exist
+                "C14.context.database_set": "self.database_set == (bool(database) and cat_exists(upper(database)))",
+                "C14.context.schema_set": "self.schema_set == (bool(database) and bool(schema) and schema_exists(upper(database), upper(schema)))",
+                # C03 representation invariant established: conn.* and DuckDB's search path agree
+                "C03.init.search": "implies(self.schema_set, search_of(duck_conn) == upper(database) + '.' + upper(schema)) and implies(self.database_set and not self.schema_set, search_of(duck_conn) == upper(database) + '.MAIN') and implies(not self.database_set, search_of(duck_conn) == '')",
+                "C03.init.ctx_ok": "implies(self.schema_set, self.database_set)",
+                "C03.init.own_cursor": "self._duck_conn is duck_conn and not self._is_closed",
+                # C01: timestamps are read back in UTC: the last statement of every connect sets the time zone
+                "C01.connect.utc": "trace_len() > old(trace_len()) and trace_at(trace_len() - 1) == \"SET GLOBAL TimeZone = 'UTC'\"",
+                "C08.snapshot": "self._paramstyle == connector_paramstyle()",
+                "C15.per_connection": "is_fresh(self.variables) and is_fresh(self.variables._variables) and dict_len(self.variables._variables) == 0",
+                "C16.nop_regexes": "self.nop_regexes is nop_regexes",
+                "C13.trace.conn": "forall(old(trace_len()), trace_len(), lambda j: trace_conn_at(j) is duck_conn)",
+            },
+            props=["C14", "C03", "C01", "C08", "C15", "C16", "C13", "C07"],
+            locals={"$asserts": "raise", "$sql_templates_only": True},
+        )
+    )
